@@ -26,7 +26,11 @@ def chunk_worker(job):
     for seed in seeds:
         rng = random.Random(f"c16/{seed}")
         fam = None if seed % 3 else ["shortcut", "where", "reduce", "logical", "inplace", "index", "layout", "creation"]
-        prog = progs.generate(rng, seed=seed, families=fam,
+        if seed % 3 == 1:
+            # operations applied to the results of selections: without the evaluator those results have unknown static
+            # extents even when every input holds data, so anything decided from static extents is exercised
+            fam = ["index", "layout", "layout", "layout", "reduce", "sort"]
+        prog = progs.generate(rng, seed=seed, families=fam, n_steps=(2, 5) if seed % 3 == 1 else (1, 6), erase_static=(seed % 3 == 1),
                               sizes={"A": rng.choice([0, 1, 2, 3]), "B": rng.choice([1, 2, 3])})
         if prog is None:
             continue
@@ -101,7 +105,7 @@ def run(ctx: common.Ctx):
             ctx.violation("corearray-history-without-onnxruntime/flags-differ",
                           f"history {' '.join(h)}: implementation {g}, model {w}", {"history": h, "implementation": g, "model": w})
     ctx.extra["histories_without_onnxruntime"] = nh
-    n = 160 if ctx.tier == "quick" else 1600
+    n = 240 if ctx.tier == "quick" else 2400
     seeds = [ctx.seed * 100003 + k for k in range(n)]
     chunks = [(seeds[i:i + 20], ctx.tier) for i in range(0, n, 20)]
     all_recs = tables.pmap(chunk_worker, chunks, workers=8, chunk=1)
